@@ -120,10 +120,48 @@ def check(repo: Repo, rep: Report) -> None:
     # N5
     drains = [s for s in sites(run) if ev(s.node) == "DRAIN"]
     restores = [s for s in sites(run) if ev(s.node) == "IDLE=True"]
-    ok = bool(drains) and any(any(t in d.ctx.tries for t in r.ctx.finals) and cl.held(r) for r in restores for d in drains)
-    rep.ob("N5-idle-restored", run, "finally: with lock: _idle = True", ok,
-           "idle is not restored (under the lock, in a finally) after the drain: after an action raises, every later "
+    def _reraises(h: ast.ExceptHandler) -> bool:
+        catches_all = h.type is None or u(h.type) in ("BaseException", "Exception")
+        return catches_all and any(isinstance(x, ast.Raise) and x.exc is None for x in ast.walk(h))
+    def _on_failure(r, d) -> bool:
+        # the restore runs when the drain raises: in a `finally`, or in a catch-all handler that re-raises, of a try around it
+        if any(t in d.ctx.tries for t in r.ctx.finals):
+            return True
+        return any(_reraises(h) and any(h in t.handlers for t in d.ctx.tries) for h in r.ctx.handlers)
+    ok = bool(drains) and any(_on_failure(r, d) and cl.held(r) for r in restores for d in drains)
+    rep.ob("N5-idle-restored", run, "when the drain raises: with lock: _idle = True", ok,
+           "idle is not restored (under the lock, on the failure path of the drain) after an action raises: every later "
            "schedule only enqueues and nothing ever runs")
+    # N9: the drain -> idle transition is one critical section with the emptiness test that ends the drain
+    rep.rule("N9-idle-with-emptiness", "the drain goes idle in the critical section in which it found the queue empty; nothing resets the trampoline after a normal drain", floor=2)
+    def _empty(e, p) -> bool:
+        r = compare_norm(e, lambda x: u(x) == "len(self._queue)")
+        if r and isinstance(r[1], ast.Constant) and r[1].value == 0:
+            return (p and r[0] == "==") or (not p and r[0] in (">", "!="))
+        return u(e) == "self._queue" and not p
+    exits = [s for s in sites(_run) if isinstance(s.node, (ast.Break, ast.Return)) and len(s.ctx.loops) <= 1 and any(_empty(e, p) for e, p in s.ctx.guards)]
+    rep.require(exits, "drain exit under an emptiness test of the queue")
+    par = _run.module.parents
+
+    def _region(n):
+        while n is not None and n is not _run.node:
+            if isinstance(n, ast.With):
+                return n
+            n = par.get(n)
+        return None
+    idles = [s for s in sites(_run) if ev(s.node) == "IDLE=True"]
+    for x in exits:
+        reg = _region(x.node)
+        ok = reg is not None and cl.held(x) and any(_region(i.node) is reg and i.index < x.index and i.ctx.branch == x.ctx.branch for i in idles)
+        rep.ob("N9-idle-with-emptiness", _run, f"`{short(x.stmt, 40)}` under {[short(e, 30) for e, _ in x.ctx.guards]}: _idle = True in the same critical section", ok,
+               "the drain stops on an empty queue but goes idle in a later critical section (or not under the lock): an item another "
+               "thread enqueues in between finds the trampoline busy, is only enqueued, and is never run (or is cleared)")
+    after = [r for r in sites(run) if (ev(r.node) == "IDLE=True" or (isinstance(r.node, ast.Call) and dotted(r.node.func) == "self._queue.clear"))
+             and not any(_reraises(h) for h in r.ctx.handlers)]
+    rep.ob("N9-idle-with-emptiness", run, f"no reset of _idle / the queue after a normal drain ({len(after)} found)", not after,
+           "run() resets the idle flag / clears the queue after a *normal* return of the drain (e.g. in a finally): items enqueued by "
+           "another thread since the drain found the queue empty are thrown away, or a drain started by that thread is marked idle "
+           "while it runs")
     # N6
     kind = lock_kind(repo, cls, "_lock")
     bad = reacquire_sites(repo, cls, set(LOCKS)) if kind in ("Lock", "Condition(Lock)") else []
